@@ -200,10 +200,10 @@ impl Monitor for C05 {
         4
     }
     fn gens(&self, tier: Tier) -> Vec<(&'static str, u64)> {
-        vec![("miri", 1), ("schedules", tier.pick(24, 600)), ("wide", tier.pick(4, 40)), ("stacks", tier.pick(8, 200)), ("images", tier.pick(16, 200))]
+        vec![("miri", 1), ("schedules", tier.pick(24, 600)), ("wide", tier.pick(8, 80)), ("stacks", tier.pick(8, 200)), ("images", tier.pick(16, 200))]
     }
     fn rule(&self) -> &'static str {
-        "case = a network with every layer kind and 1..4 channels (convolution, feedback block of convolution+deconvolution with 2..4 repetitions, with and without input / output skips, deconvolution, max-pool, five dense layers, a skip connection across the block, two skip connections sharing their source, a loop connection over a dense layer, dropout on random layers), 24..64 training samples, batch 1..32, 2 epochs with 150..300 or 500..1300 validation inputs (2..21 chunks of 64, not a multiple of 64), followed by validate() and predict_batch() on the same inputs. The identical call is executed in a 1-thread pool without delays (reference) and in dedicated rayon pools of 2, 3, 4, 7, 16, 33 and 64 threads with the delay injector armed (random 0..300 us stalls at the entry of every per-sample forward pass, two delay seeds per pool size), plus once in an 8-thread pool while 16 busy threads starve the machine, plus a repetition of the reference, plus two runs (1 and 4 threads) in which the evaluation tensors are stored elsewhere and in another order in memory while the reference vectors list them in the same logical order; plus the same call with a target vector 1..3 entries longer than the input vector in pools of 1, 2, 3, 4 and 7 threads, compared among themselves (not judged if the library refuses such a call). Every output - per-epoch train/validation loss and accuracy, all final weights, the validate() result, every predict_batch() output in order - must be bit-identical to the reference. Evidence that schedules differed: per training group the sample->worker assignment and the order in which the per-sample tasks started, taken from the event log; distinct = distinct (case, assignment/start-order) schedules observed. stacks: the same protocol on stacks of 3..6 convolutions / deconvolutions with 1..5 input channels and 1..5 filters each (more channels than filters, as many, fewer), kernels 1 or 3, paddings 0..2 and any activation incl. soft-max per layer (consecutive layers work on intermediate tensors of equal shape with different margins), max-pool, two dense layers. wide: the same protocol on networks whose dense layers have 4096..8200 inputs or outputs. images: stacks that END in a convolution with 5..16 filters (image-shaped predictions and targets, so the objective sums over channels), trained without validation data (validate() needs a dense output layer) and evaluated by predict_batch(). Miri leg: /verif/miri under -Zmiri-many-seeds (4 seeds quick, 32 thorough): every seed must print the same bit patterns and Miri must report no undefined behaviour or data race."
+        "case = a network with every layer kind and 1..4 channels (convolution, feedback block of convolution+deconvolution with 2..4 repetitions, with and without input / output skips, deconvolution, max-pool, five dense layers, a skip connection across the block, two skip connections sharing their source, a loop connection over a dense layer, dropout on random layers), 24..64 training samples, batch 1..32, 2 epochs with 150..300 or 500..1300 validation inputs (2..21 chunks of 64, not a multiple of 64), followed by validate() and predict_batch() on the same inputs. The identical call is executed in a 1-thread pool without delays (reference) and in dedicated rayon pools of 2, 3, 4, 7, 16, 33 and 64 threads with the delay injector armed (random 0..300 us stalls at the entry of every per-sample forward pass, two delay seeds per pool size), plus once in an 8-thread pool while 16 busy threads starve the machine, plus a repetition of the reference, plus two runs (1 and 4 threads) in which the evaluation tensors are stored elsewhere and in another order in memory while the reference vectors list them in the same logical order; plus the same call with a target vector 1..3 entries longer than the input vector in pools of 1, 2, 3, 4 and 7 threads, compared among themselves (not judged if the library refuses such a call). Every output - per-epoch train/validation loss and accuracy, all final weights, the validate() result, every predict_batch() output in order - must be bit-identical to the reference. Evidence that schedules differed: per training group the sample->worker assignment and the order in which the per-sample tasks started, taken from the event log; distinct = distinct (case, assignment/start-order) schedules observed. stacks: the same protocol on stacks of 3..6 convolutions / deconvolutions with 1..5 input channels and 1..5 filters each (more channels than filters, as many, fewer), kernels 1 or 3, paddings 0..2 and any activation incl. soft-max per layer (consecutive layers work on intermediate tensors of equal shape with different margins), max-pool, two dense layers. wide: the same protocol on networks whose dense layers have 4096..8200 inputs or outputs, and (every second case) on networks that begin with a convolution or deconvolution with a wide kernel (1x8, 1x9, 3x8, 3x11, 2x16, 1x17, 1x33; rows of 11..64 elements) followed by a 1x8 convolution with stride 2: sums over 8..100 products per output element. images: stacks that END in a convolution with 5..16 filters (image-shaped predictions and targets, so the objective sums over channels), trained without validation data (validate() needs a dense output layer) and evaluated by predict_batch(). Miri leg: /verif/miri under -Zmiri-many-seeds (4 seeds quick, 32 thorough): every seed must print the same bit patterns and Miri must report no undefined behaviour or data race."
     }
     fn assumptions(&self) -> Vec<&'static str> {
         vec![
@@ -220,7 +220,21 @@ impl Monitor for C05 {
         let cfg = if wide {
             // dense layers with several thousand inputs / outputs (sizes beyond what small tests use)
             let big = *rng.pick(&[4096usize, 5000, 8200]);
-            if idx % 2 == 0 {
+            if idx % 4 >= 2 {
+                // long rows and wide kernels (1x9 ... 3x33, the shape of spectra and signals):
+                // sums over 8..100 products per output element, rows of 12..64 elements
+                let (kh, kw) = *rng.pick(&[(1usize, 9usize), (1, 8), (3, 8), (2, 16), (1, 33), (3, 11), (1, 17)]);
+                let h = rng.range(kh, kh + 3);
+                let w = rng.range(kw + 3, (kw + 30).min(64));
+                let c = rng.range(1, 3);
+                let pw = rng.range(0, 4);
+                let first = if idx % 4 == 2 {
+                    LCfg::Conv { filters: rng.range(1, 3), kernel: (kh, kw), stride: (1, 1), padding: (0, pw), dilation: (1, 1), act: Act::Tanh, dropout: None }
+                } else {
+                    LCfg::Deconv { filters: rng.range(1, 3), kernel: (kh, kw), stride: (1, 1), padding: (0, pw), act: Act::Tanh, dropout: None }
+                };
+                NetCfg::plain(Sh::Sp(c, h, w), vec![first, LCfg::Conv { filters: 2, kernel: (1, 8), stride: (1, 2), padding: (0, 3), dilation: (1, 1), act: Act::Sigmoid, dropout: None }, LCfg::Dense { n: 4, act: Act::Tanh, bias: true, dropout: None }, LCfg::Dense { n: 2, act: Act::Linear, bias: true, dropout: None }])
+            } else if idx % 2 == 0 {
                 NetCfg::plain(Sh::Flat(big), vec![LCfg::Dense { n: 5, act: Act::Tanh, bias: true, dropout: None }, LCfg::Dense { n: 2, act: Act::Linear, bias: true, dropout: None }])
             } else {
                 NetCfg::plain(Sh::Flat(6), vec![LCfg::Dense { n: big, act: Act::Tanh, bias: true, dropout: None }, LCfg::Dense { n: 2, act: Act::Linear, bias: true, dropout: None }])
@@ -254,7 +268,7 @@ impl Monitor for C05 {
         };
         let image_out = gen == "images";
         let out_shape = cfg.shapes().unwrap().last().unwrap().1;
-        let params = if wide {
+        let params = if wide && idx % 4 < 2 {
             // plain random values (repetition-free generation is quadratic in the tensor size)
             let mut ps = Vec::new();
             let mut cur = cfg.input;
